@@ -163,7 +163,7 @@ def plan(ctx):
     for kind in ("dict", "set"):
         for route in ("go", "star"):
             if q:
-                n = "9" if kind == "set" else "5"   # 9 hash distributions; the set runs carry the subset / comparison queries
+                n = "9" if kind == "set" else "3"   # 9 hash distributions; the set runs carry the subset / comparison queries
                 jobs.append(("rand %s/%s" % (kind, route), ["random", "-kind", kind, "-route", route, "-n", n, "-ops", "1500", "-seed", seed], 300))
             else:
                 jobs.append(("rand %s/%s" % (kind, route), ["random", "-kind", kind, "-route", route, "-n", "18", "-ops", "10000", "-seed", seed], 840))
